@@ -383,18 +383,14 @@ def candidates(case):
     yield from (c for c in c09.candidates(case) if c.get("recipe") is not case.get("recipe"))
 
 
-def finding_matches(case, result, fd):
-    if fd["id"] == "F12":
-        if result.get("cls") != "rebuild-in-process-differs":
-            return False
-        srcs = case["recipe"]["sources"]
-        if not any(sp.get("masked") and sp.get("dtype") in ("u1", "i4", "i2", "u2", "?") for sp in srcs.values()):
-            return False
-        if not any(e["ev"] in ("pickle", "load") for e in case["history"]):
-            return False
-        from ..worker import exec_case
-        import sys
+def _pre_f12(case, result):
+    if result.get("cls") != "rebuild-in-process-differs":
+        return False
+    srcs = case["recipe"]["sources"]
+    return any(sp.get("masked") and sp.get("dtype") in ("u1", "i4", "i2", "u2", "?") for sp in srcs.values()) and any(
+        e["ev"] in ("pickle", "load") for e in case["history"])
 
-        abl = dict(case, history=[e for e in case["history"] if e["ev"] not in ("pickle", "load", "dump")])
-        return exec_case(sys.modules[__name__], abl)["status"] == "ok"
-    return False
+
+FINDING_ABLATIONS = {
+    "F12": (_pre_f12, lambda case: dict(case, history=[e for e in case["history"] if e["ev"] not in ("pickle", "load", "dump")])),
+}
